@@ -411,8 +411,11 @@ func c04run(cs *c04Case, caseNo int) *c04Obs {
 		wg.Wait()
 		close(stopTicks)
 		tickWg.Wait()
-		// the owner's final flush: Logger.Sync, then Stop of every BufferedWriteSyncer
-		_ = base.Sync()
+		// the owner's final flush: Logger.Sync and/or Stop of every BufferedWriteSyncer
+		// (Stop alone must flush what is buffered)
+		if cs.seed&1 == 0 {
+			_ = base.Sync()
+		}
 		for _, bw := range bws {
 			_ = bw.Stop()
 		}
@@ -702,7 +705,8 @@ func c04(c *Ctx) {
 		outf, curf := dir+"/out", dir+"/cur"
 		os.Remove(curf)
 		cmd := exec.Command(os.Args[0], "C04", "-seed", strconv.FormatUint(c.Seed, 10), "-tier", tier, "-out", outf)
-		cmd.Env = append(os.Environ(), "C04_CHILD=1", "C04_FROM="+strconv.Itoa(from), "C04_CUR="+curf)
+		// under -race (thorough tier) the child stops at the first report, so that the case on disk is the racing one
+		cmd.Env = append(os.Environ(), "C04_CHILD=1", "C04_FROM="+strconv.Itoa(from), "C04_CUR="+curf, "GORACE=halt_on_error=1")
 		var stderr bytes.Buffer
 		cmd.Stderr = &stderr
 		runErr := cmd.Run()
@@ -731,6 +735,9 @@ func c04(c *Ctx) {
 		msg := strings.TrimSpace(stderr.String())
 		if i := strings.Index(msg, "\n\n"); i > 0 {
 			msg = msg[:i]
+		}
+		if strings.Contains(msg, "DATA RACE") {
+			msg = "the race detector reported: " + msg
 		}
 		msg = strings.Join(strings.Fields(msg), " ")
 		if len(msg) > 300 {
@@ -813,8 +820,8 @@ func c04child(c *Ctx) {
 	N := 900
 	budget := 5000
 	if c.Thorough {
-		N = 30000
-		budget = 20000
+		N = 12000
+		budget = 12000
 	}
 	for i := 0; i < N; i++ {
 		nb := 1
